@@ -174,28 +174,22 @@ def proxyObs (c : PCase) : Sx :=
     let bo := Proxy.bridge w (decOf c.dec) (if dropAll || stream.isEmpty then [] else [stream])
     let o : Proxy.Out := { groups := bo.groups, sent := bo.sent, status := bo.status, consumed := 0 }
     let pipelinedPayload := c.client == "pipelined"
-    -- a service that speaks first: its greeting comes in one write with the reply to the upgrading
-    -- call (27 bytes with the NUL); what the bridge reads ahead with that reply is dropped
+    -- a service may speak first: its greeting comes in one write with the reply to the upgrading call
     let greet := c.greeting
-    let ra := Proxy.readAheadOf 27 greet.length
-    -- a client that waits for the whole greeting before it sends anything then waits in vain
-    let clientGivesUp := !pipelinedPayload && ra > 0
     let pump : Option Proxy.Pumped := match bo.status with
       | .upgraded _ (some i) =>
         if i == upName then
-          some (if pipelinedPayload then Proxy.upgradedPump (fun b => greet ++ b.map upTransform) (payloadBytes c) [] ra
-                else if clientGivesUp then Proxy.upgradedPump (fun b => greet ++ b.map upTransform) [] [] ra
-                else Proxy.upgradedPump (fun b => greet ++ b.map upTransform) [] (c.payload.getD []) ra)
+          some (if pipelinedPayload then Proxy.upgradedPump (fun b => greet ++ b.map upTransform) (payloadBytes c) []
+                else Proxy.upgradedPump (fun b => greet ++ b.map upTransform) [] (c.payload.getD []))
         else none
       | _ => none
     let raw : Bytes := match pump with | some p => p.toClient | none => []
     let upB : Bytes := match pump with | some p => p.toService | none => []
-    let gaveUp := clientGivesUp && pump.isSome
     let ending := match o.status with
       | .eof => if early then "closed" else "open"
       | .error => "closed"
       | .hang => "timeout"
-      | .upgraded _ _ => if early then "closed" else if gaveUp then "timeout" else "open"
+      | .upgraded _ _ => if early then "closed" else "open"
     let exit := if c.mode == "bridge2" then "0" else match o.status with
       | .eof => "0"
       | .error => "1"
